@@ -235,6 +235,18 @@ def verify_one(ex, fi, c, label=None, case=None):
 def lemmas_assumed(ex, st, c, scx):
     for ln in c.lemmas:
         st = st.assume(lemma_formula(ex, ln))
+    # explicit instances of (separately proved) lemmas at terms named by the contract
+    for ln, binding in c.lemma_instances:
+        bound, body = lemma_body(ex, ln)
+        pairs = []
+        for var, src in binding.items():
+            v = ex.pure(st, ast.parse(src, mode='eval').body, scx)
+            pairs.append((bound[var].z, ex.coerce(v, bound[var].ty).z))
+        missing = [n for n in bound if n not in binding]
+        inst_ = z3.substitute(body, *pairs)
+        if missing:
+            inst_ = z3.ForAll([bound[n].z for n in missing], inst_)
+        st = st.assume(inst_)
     return st
 
 
